@@ -1077,7 +1077,7 @@ func G§(x int) int {
 }
 ### boolsimp | exprs
 func F§() bool {
-	a, b, x, y := «i», «i», «i», «i»
+	var a, b, x, y int = «i», «i», «i», «i»
 	f, g := «f», «f»
 	_ = !(a == b) || !!gb
 	_ = !(a != b) && !(a < b) && !(a >= b)
@@ -1099,7 +1099,7 @@ func F§() bool {
 }
 ### boolnested | exprs
 func F§() bool {
-	a, b := «i», «i»
+	var a, b int = «i», «i»
 	f := «f»
 	_ = gb && fba(!!gb)
 	_ = !fba(!(a == b))
@@ -1113,7 +1113,7 @@ func F§() bool {
 }
 ### assignop | exprs
 func F§() {
-	x, y := «i», «i»
+	var x, y int = «i», «i»
 	x = x + 1
 	x = x - 1
 	x = x * y
@@ -1868,13 +1868,62 @@ func F§(v interface{}, e error) bool {
 	if v != true || v != "t" {
 		return true
 	}
-	if v == «i» && v == «s» || v == «s» && v == «b» {
+	if v == («i») && v == («s») || v == («s») && v == («b») {
 		return false
 	}
 	switch {
 	case v == 1 && v == 1.0, v == "a" && v == 'a', v == "x" || v != true:
 	}
 	return v == 0 && v == "" && e == nil && e == error(nil)
+}
+### localtypes | stmts
+func small§(xs []int) int {
+	type rec struct{ buf [16]byte }
+	recs := make([]rec, len(xs))
+	var arr [4]rec
+	n := 0
+	for _, r := range recs {
+		n += int(r.buf[0])
+	}
+	for _, r := range arr {
+		n += int(r.buf[0])
+	}
+	return n
+}
+func big§(xs []int) int {
+	type rec struct{ buf [1024]byte }
+	recs := make([]rec, len(xs))
+	var arr [4]rec
+	n := 0
+	for _, r := range recs {
+		n += int(r.buf[0])
+	}
+	for _, r := range arr {
+		n += int(r.buf[0])
+	}
+	return n
+}
+func mid§(xs []int) int {
+	type rec struct{ buf [200]byte }
+	f := func(r rec) byte { return r.buf[1] }
+	var r rec
+	return int(f(r)) + len(xs)
+}
+### mapkeys | exprs
+const kTotal§ = "total "
+const kPre§ = " pre"
+const kTab§ = "tab\t"
+func F§() {
+	pre := "p"
+	_ = map[string]int{"a": 1, "b ": 2, "c": 3}
+	_ = map[string]int{"x": 1, kTotal§: 2, "y": 3}
+	_ = map[string]int{kPre§: 1, "q": 2}
+	_ = map[string]int{"e" + " ": 1, "f": 2}
+	_ = map[string]int{pre + " ": 1, "g": 2}
+	_ = map[string]int{«s»: 1, "z ": 2}
+	_ = map[string]bool{kTab§: true, "h": false, (" i"): true}
+	_ = map[interface{}]int{"j ": 1, 2: 2, kTotal§: 3}
+	_ = []string{0: "k ", 1: "l"}
 }
 ### multiopts | exprs
 type opt§ func(*int)
@@ -1885,7 +1934,7 @@ func apply§(name string, o ...opt§) {}
 func F§() {
 	apply§("x", withA§(1), withB§(2), withA§(1), withB§(2), withC§(3), withC§(3), withA§(2))
 	apply§("y", withA§(1), withA§(1))
-	x, y, z := «i», «i», «i»
+	var x, y, z int = «i», «i», «i»
 	_ = x == x || y == y || z == z || x-x > 0 || y-y > 0
 	_ = []any{x + 0, 0 + y, z * 1, x / 1}
 }
